@@ -141,6 +141,8 @@ class Ctx:
         self.obligations = []
         self.notes = []
         self.witness_fn = None
+        self.decided = {}
+        self._keep = []   # keeps decided terms alive so that ast ids are not reused
 
     # -- decisions
     def _push(self, cond):
@@ -155,6 +157,7 @@ class Ctx:
         t0 = time.time()
         r = s.check()
         ex.stats['solver_s'] += time.time() - t0
+        ex.stats['feas_s'] = ex.stats.get('feas_s', 0.0) + time.time() - t0
         ex.stats['queries'] += 1
         s.pop()
         if r == z3.unknown:
@@ -167,12 +170,17 @@ class Ctx:
             return True
         if is_f(cond):
             return False
+        key = cond.get_id()
+        if key in self.decided:
+            return self.decided[key]
         if self.pos < len(self.script):
             v = self.script[self.pos]
             self.pos += 1
             if not isinstance(v, bool):
                 raise EngineLimit('non-deterministic replay (bool expected)')
             self._push(cond if v else z3.Not(cond))
+            self.decided[key] = v
+            self._keep.append(cond)
             return v
         ex = self.ex
         ex.stats['forks_seen'] += 1
@@ -188,6 +196,8 @@ class Ctx:
         self.script.append(v)
         self.pos += 1
         self._push(cond if v else z3.Not(cond))
+        self.decided[key] = v
+        self._keep.append(cond)
         if len(self.script) > ex.max_depth:
             raise EngineLimit('decision depth > %d' % ex.max_depth)
         return v
@@ -355,6 +365,7 @@ class Explorer:
         self._nontrivial_samples = 0
         self.inconclusive = []
         self.expect_exceptions = expect_exceptions
+        self.fresh_solver_for_obligations = True
 
     def run(self):
         t_start = time.time()
@@ -436,6 +447,24 @@ class Explorer:
             if is_t(term_s):
                 self.stats['discharged'] += 1
                 continue
+            if self.fresh_solver_for_obligations:
+                # non-incremental solver: z3 can preprocess (solve-eqs, ...) which is much faster on
+                # the arithmetic obligations than the incremental core
+                s2 = z3.Solver()
+                s2.set('timeout', self.query_timeout_ms)
+                s2.add(*ctx.pc)
+                s2.add(z3.Not(term_s))
+                t0 = time.time()
+                r = s2.check()
+                self.stats['solver_s'] += time.time() - t0
+                self.stats['queries'] += 1
+                if r == z3.unsat:
+                    self.stats['discharged'] += 1
+                    continue
+                if r == z3.unknown:
+                    self.stats['unknown'] += 1
+                    self.inconclusive.append('obligation %s: unknown (%s)' % (label, s2.reason_unknown()))
+                    continue
             s.push()
             s.add(z3.Not(term_s))
             t0 = time.time()
@@ -904,6 +933,10 @@ class SymReal(Sym):
                 return SymReal(ONE) / (self ** (-k))
         if isinstance(o, (float, np.floating)) and float(o) == 0.5:
             return self.sqrt()
+        if isinstance(o, SymInt):
+            o2 = z3.simplify(o.t)
+            if z3.is_int_value(o2):
+                return self ** o2.as_long()
         raise EngineLimit('pow with exponent %r' % (o,))
 
     def sqrt(self):
